@@ -409,7 +409,15 @@ func fnHello(ctx *cmdContext, args map[string]any) (output respValue, err error)
 	if hasArgs {
 		ver, hasVer := helloArgs.mustGet("protover").(int64)
 		if hasVer {
+			if ver != 2 && ver != 3 {
+				// refused, nothing changes
+				output.data = respErrorString("NOPROTO unsupported protocol version")
+				return
+			}
 			ctx.cs.respVersion = int(ver)
+		}
+		if clientName, hasName := helloArgs.get("clientname"); hasName {
+			ctx.cs.name = clientName.(string)
 		}
 	}
 
